@@ -5,5 +5,5 @@ cd "$(dirname "$0")"
 export CARGO_NET_OFFLINE=true
 python3 sim/gen_shadow.py
 (cd sim && cargo build --profile sim -p qesim 2>&1 | tail -3)
-if [ -d sched ]; then (cd sched && cargo build --release 2>&1 | tail -3); fi
+(cd sched && cargo build --release 2>&1 | tail -3)
 echo "setup ok"
